@@ -236,6 +236,13 @@ class Scenario:
             s.cer_sent = True
             hbh, e2e = 0x100 + s.idx, 0x200 + s.idx
             var = name[4:]
+            who = 0                             # "<variant>@<i>": the variant in the name of configured peer i instead of peer 0
+            if "@" in var:
+                var, w = var.split("@")
+                who = int(w)
+                if who >= len(cfg["peers"]):
+                    s.cer_sent = False
+                    return None
             s.cer_variant = var
             if var.startswith("p"):             # cer_p<i>: known peer i with the node's applications
                 i = int(var[1:])
@@ -253,7 +260,7 @@ class Scenario:
             if var == "unknown":
                 s.host = "stranger.example.org"
                 return env.cer(host=s.host, acct=napps_acct or (env.APP_ACCT,), auth=napps_auth, hbh=hbh, e2e=e2e)
-            s.host = cfg["peers"][0]["name"]
+            s.host = cfg["peers"][who]["name"]
             if var == "vsa":        # the shared application is only offered inside Vendor-Specific-Application-Id
                 vsas = [rc.grouped(260, [rc.u32(266, 10415), rc.u32(259, a)]) for a in napps_acct] + \
                        [rc.grouped(260, [rc.u32(266, 10415), rc.u32(258, a)]) for a in napps_auth]
